@@ -635,6 +635,9 @@ func regLookups(c *ctx, cids []int) {
 			})
 			ev["err"] = res
 			if res == "" {
+				if size == math.MaxInt { // written as 2^30, see the `register` event
+					size = 1 << 30
+				}
 				ev["size"] = size
 			}
 			c.emit(ev)
@@ -747,7 +750,11 @@ func drvRegistry(c *ctx) error {
 		for _, o := range ops {
 			ev := M{"ev": "register", "dir": o.dir, "cid": o.cid, "size": o.size}
 			res, _ := observeFast(func() error {
-				return lorawan.RegisterProprietaryMACCommand(o.dir == "up", lorawan.CID(o.cid), o.size)
+				sz := o.size
+				if sz == 1<<30 { // the event carries 2^30 (TLC computes with 32-bit integers); the library is given the largest int.
+					sz = math.MaxInt // For the framing of FOpts both mean the same: more bytes than any stream has
+				}
+				return lorawan.RegisterProprietaryMACCommand(o.dir == "up", lorawan.CID(o.cid), sz)
 			})
 			ev["err"] = res
 			c.emit(ev)
@@ -772,7 +779,7 @@ func drvRegistry(c *ctx) error {
 					}
 					size := c.rnd.Intn(7) - 1
 					if c.rnd.Intn(6) == 0 { // sizes up to what FOpts can carry, just beyond, and around the one-byte boundary
-						size = c.pick(6, 7, 8, 13, 14, 15, 16, 255, 256, 257)
+						size = c.pick(6, 7, 8, 13, 14, 15, 16, 255, 256, 257, 1<<30, 1<<30)
 					}
 					h = append(h, M{"dir": []string{"down", "up"}[c.rnd.Intn(2)], "cid": cid, "size": size})
 				}
